@@ -516,6 +516,8 @@ def trivia_checks(rep: OpReport, rec: PathRec, cfg: dict) -> None:
         return
     if cfg["skip"]:
         ob("TRIVIA", f"attempts {kinds} where exactly the fused SKIP rule is specified", "delegates to the fused SKIP rule", kinds == ["SKIP"])
+        # SKIP is the optimizer's name for WHITESPACE / COMMENT: its failures are trivia failures
+        ob("TRIVIA", "the fused SKIP rule is attempted without failure suppression", "failures of the fused SKIP rule are suppressed", all(e[8] for e in cev), {"C13", "C02"})
         return
     allowed = {k for k, on in (("WHITESPACE", cfg["ws"]), ("COMMENT", cfg["comment"])) if on}
     ob("TRIVIA", f"attempts {sorted(set(kinds) - allowed)} which are not defined trivia rules", "attempts only defined trivia rules", set(kinds) <= allowed)
@@ -526,6 +528,10 @@ def trivia_checks(rep: OpReport, rec: PathRec, cfg: dict) -> None:
             break
         tail.append(_trivia_kind(e[1]))
     ob("TRIVIA", f"stops although {sorted(allowed - set(tail))} was not tried after the last match", "stops only when every trivia rule fails", allowed <= set(tail))
+    # pest's skip is WHITESPACE* ~ (COMMENT ~ WHITESPACE*)*: after a WHITESPACE match, WHITESPACE is tried again first
+    if cfg["ws"] and cfg["comment"]:
+        order_ok = all(not (kinds[i] == "WHITESPACE" and cev[i][3]) or kinds[i + 1] == "WHITESPACE" for i in range(len(cev) - 1))
+        ob("TRIVIA", "COMMENT is attempted right after a WHITESPACE match (pest: WHITESPACE* ~ (COMMENT ~ WHITESPACE*)*)", "WHITESPACE is exhausted before COMMENT is tried", order_ok)
     # failures inside trivia must not be recorded: suppress flag on at every attempt
     ob("TRIVIA", "trivia rules attempted without failure suppression", "trivia failures are suppressed", all(e[8] for e in cev), {"C13"})
 
